@@ -391,6 +391,17 @@ int msgs_per_producer(Gen &g)
     return (int)g.r.range(1, 6);
 }
 
+// A third of the recording sinks of a plan with an application object are SignalSinks: a direct slot records
+// the delivery, a receiver object living in the main thread gets the same signal (queued when the
+// message is emitted on another thread) and must see every message exactly once, unchanged
+static void mark_signal_sinks(Gen &g, Node &n)
+{
+    if (n.kind == "rec" && g.r.chance(1, 2))
+        n.b = 1;
+    for (auto &k : n.kids)
+        mark_signal_sinks(g, k);
+}
+
 Plan gen_C02(Gen &g, Plan p)
 {
     p.target = g.r.chance(3, 5) ? "logger" : "bare";
@@ -427,6 +438,10 @@ Plan gen_C02(Gen &g, Plan p)
     p.main_ops.push_back(mkop("join", -1));
     if (g.r.chance(1, 3))
         p.main_ops.push_back(gen_log(g, false));
+    if (!crowd && g.r.chance(1, 4)) {
+        p.app = true;
+        mark_signal_sinks(g, p.root);
+    }
     gen_sched(g, p, np);
     return p;
 }
@@ -488,6 +503,8 @@ Plan gen_C03(Gen &g, Plan p)
         }
     }
     p.main_ops.push_back(mkop("reset"));
+    if (g.r.chance(1, 4))
+        mark_signal_sinks(g, p.root);
     gen_sched(g, p, np + 1);
     if (gate && g.r.chance(1, g.thorough ? 8 : 25)) {
         // a burst far beyond any plausible queue bound against a stuck sink: the calls must all return.
